@@ -35,6 +35,8 @@ var c20P1Sizes = []int{7, 5, 3}
 func c20Gen(g *core.Gen) {
 	states := []string{"intact", "deleted", "shifted", "appended", "shifted+deleted", "unrepairable", "noparity-intact", "noparity-damaged", "noparity-shifted", "oneblock-shifted", "badindex", "noindex",
 		// histories: the set was created before with more recovery blocks (stale but valid volumes remain, blocks exist twice); a volume was copied
+		// files above 16 KiB (first file 17000 bytes): damage beyond the first 16 KiB, with exactly as much recovery data left as needed
+		"big-intact", "big-tail-tight", "big-tail", "big-head-tight",
 		"recreated-intact", "recreated-deleted", "recreated-shifted+deleted", "recreated-unrepairable", "dupvol-intact", "dupvol-deleted"}
 	cwds := []string{"set", "parent", "unrelated"}
 	for _, f := range []string{"p2", "p1"} {
@@ -141,6 +143,9 @@ func c20Run(ci interface{}, r *core.Rec) {
 		sizes = c20P1Sizes
 		ext = ".par"
 	}
+	if strings.HasPrefix(c.State, "big") {
+		sizes = append([]int{17000}, sizes...)
+	}
 	var paths []string
 	var datas [][]byte
 	for i, n := range sizes {
@@ -208,6 +213,23 @@ func c20Run(ci interface{}, r *core.Rec) {
 		for i, p := range recFiles() {
 			b, _ := ioutil.ReadFile(p)
 			ioutil.WriteFile(filepath.Join(setDir, fmt.Sprintf("s.copy%d.par2", i)), b, 0644)
+		}
+	}
+	if strings.HasPrefix(c.State, "big-") && c.State != "big-intact" {
+		b := append([]byte{}, datas[0]...)
+		if c.State == "big-head-tight" {
+			b[5] ^= 0x11
+		} else {
+			b[16500] ^= 0x11
+		}
+		ioutil.WriteFile(paths[0], b, 0644)
+		if strings.HasSuffix(c.State, "-tight") {
+			// leave exactly one recovery block / volume: the first recovery file (PAR2: s.vol00+01 holds one block)
+			for i, p := range recFiles() {
+				if i > 0 {
+					os.Remove(p)
+				}
+			}
 		}
 	}
 	switch c.State {
@@ -511,7 +533,7 @@ func init() {
 	core.Register(&core.Prop{
 		ID:    "C20",
 		Level: "model_checking",
-		Rule: "full product through the built par binary: {PAR1, PAR2} x {verify, v, VERIFY, -g 2 verify, verify -a; repair, r, Repair, repair -doublecheck, -g 3 r -doublecheck=true} x archive state {intact, repairable by deletion, by shift/change, by removing appended bytes, shift+deletion, unrepairable, no parity (data intact / file deleted / file only shifted), one block left + shift, damaged index, missing index} x invocation directory {set directory with relative paths, parent with relative paths, unrelated with absolute paths}; command histories: a first verify / repair followed by every sequence of 2 (thorough 3) further steps from {verify, verify -a, repair, repair -doublecheck, delete a file, restore all files} from 5 starting states, every command judged against the byte truth at that moment; create variants (incl. option values at and beyond their limits - slice size 0 / 6 / negative / 2^20, block count 0 / -1 / 255 / 256 / 32768 / 65536, goroutines 0 / negative / 100000, an input listed twice, the index as its own input, no input: there only 'exit 0 => complete valid set' is judged -; missing input, missing directory, an output path blocked by a directory: index, first and last recovery file), 11 usage-error command lines, unknown extensions. " +
+		Rule: "full product through the built par binary: {PAR1, PAR2} x {verify, v, VERIFY, -g 2 verify, verify -a; repair, r, Repair, repair -doublecheck, -g 3 r -doublecheck=true} x archive state {intact, repairable by deletion, by shift/change, by removing appended bytes, shift+deletion, unrepairable, no parity (data intact / file deleted / file only shifted), one block left + shift, damaged index, missing index, a 17000-byte first file intact / damaged beyond or within its first 16 KiB with exactly one recovery block (volume) left or with all} x invocation directory {set directory with relative paths, parent with relative paths, unrelated with absolute paths}; command histories: a first verify / repair followed by every sequence of 2 (thorough 3) further steps from {verify, verify -a, repair, repair -doublecheck, delete a file, restore all files} from 5 starting states, every command judged against the byte truth at that moment; create variants (incl. option values at and beyond their limits - slice size 0 / 6 / negative / 2^20, block count 0 / -1 / 255 / 256 / 32768 / 65536, goroutines 0 / negative / 100000, an input listed twice, the index as its own input, no input: there only 'exit 0 => complete valid set' is judged -; missing input, missing directory, an output path blocked by a directory: index, first and last recovery file), 11 usage-error command lines, unknown extensions. " +
 			"Oracle (one-directional, as stated): exit 0 => full success by byte truth / library re-verification; verify needed&possible => 1, needed&impossible => 2; repair needed&impossible => 2, possible => 0 and files restored; usage => 3; other failures => neither 0 nor 3; no Go panic; files created relative to the invocation directory. non-trivial = verify/repair/create runs",
 		Assumptions: []string{"'needed' = some protected file not byte-identical; 'possible' = reference count of unfindable slices (unusable files) <= intact recovery blocks (volumes) present"},
 		NewCase:     func() interface{} { return &c20Case{} },
